@@ -374,6 +374,8 @@ func posMonitor(args []string) int {
 		p, _ := position.NewPositionFen(starts[int(seed)%len(starts)])
 		startFen := p.StringFen()
 		var fens []string
+		var flags []int
+		flagReported := false
 		capacityOK := true
 		for ply := 1; ply <= MaxMoves && capacityOK; ply++ {
 			cp := *p
@@ -399,6 +401,7 @@ func posMonitor(args []string) int {
 			}
 			m := cands[rng.Intn(len(cands))]
 			p.HasCheck() // as a search does at every node: the answer is cached and travels through the undo history
+			flags = append(flags, p.VerifHasCheckFlag())
 			prev := p.StringFen()
 			fens = append(fens, prev)
 			fresh, _ := position.NewPositionFen(prev)
@@ -413,6 +416,11 @@ func posMonitor(args []string) int {
 		}
 		for k := len(fens) - 1; k >= 0 && capacityOK; k-- {
 			p.UndoMove()
+			if got := p.VerifHasCheckFlag(); got != flags[k] && !flagReported {
+				flagReported = true
+				rep.Violate("undo-does-not-restore", map[string]interface{}{"start": startFen, "ply": k + 1, "fields": "hasCheckFlag (long game)", "fen": p.StringFen()},
+					"after undoing a "+strconv.Itoa(len(fens))+"-ply game back to ply "+strconv.Itoa(k+1)+": cached in-check answer "+strconv.Itoa(got)+", was "+strconv.Itoa(flags[k])+" before the move")
+			}
 			if us := p.NextPlayer(); p.PiecesBb(us, King) != 0 && p.HasCheck() != p.IsAttacked(p.KingSquare(us), us.Flip()) {
 				rep.Violate("check-cache-stale", map[string]interface{}{"start": startFen, "ply": k + 1, "fen": p.StringFen()},
 					"after undoing a "+strconv.Itoa(len(fens))+"-ply game back to ply "+strconv.Itoa(k+1)+": HasCheck() disagrees with IsAttacked(king)")
